@@ -14,6 +14,15 @@ CHECKS = {
  "C03": ("exploration", "proptest generation + differential against a reference codec interpreting an independent layout table (both directions), plus captured blobs",
          "Bytes assembled by an independent reference codec from a hand-written layout table must decode into exactly the named fields (compared through Debug) with nothing left, and the repository must re-encode them to the identical bytes, for generated canonical values of all 55 types; the 24 captured packets are read by both decoders.",
          "Trusted: harness/src/layouts.tbl (transcribed from the ZVT / Feig specification, cross-checked against the captured blobs) and harness/src/refc.rs. A layout error shared by table and code is invisible.", "7/C03"),
+ "C04": ("exploration", "exhaustive header sweep + exhaustive chunkings of short streams + proptest packet sequences x chunk schedules x end-of-stream positions against a scripted in-memory peer",
+         "The real PacketTransport reads from an in-memory peer whose chunk schedule the harness owns (a Pending wake-up between chunks): writer output and reader interpretation of the length header are compared for every body length 0..65535; all 2^(n-1) chunkings of short concatenations and generated sequences of 1..5 packets (around the 254/255 switch and up to 65535) must come back as exactly those packets, the read cursor exactly at each boundary with no read asking beyond it, and a stream ending inside a packet or at a boundary must give an error.",
+         "Trusted: harness RawFrame parser (copies what the transport framed) and the in-memory peer; real sockets' short writes are not modelled.", "7/C04"),
+ "C05": ("exploration", "bounded-exhaustive reply scripts + proptest scripts, model-based: peer event log compared with a reference trace model",
+         "All 17 Sequence impls run against a scripted peer that releases reply i+1 only after reply i was answered: every well-formed script up to depth 5 (thorough 6) over the command's reply alphabet and generated scripts up to length 40, with trailing bytes and chunk schedules; the log must show the command once, one acknowledgement per reply before hand-over and before the next read, items in order, end right after the first final packet without further I/O, trailing bytes untouched.",
+         "Trusted: Appendix B tables (reply sets, final packets) and the peer's gating model (a terminal sends its acknowledgement and first reply without waiting). The upload stream is covered by C11.", "7/C05"),
+ "C06": ("fault_enumeration", "fault enumeration: every fault kind at every position behind every valid script prefix (bounded-exhaustive) + proptest prefixes; oracle over the peer's event log",
+         "For all 17 sequences, every valid reply prefix up to depth 4 (thorough 5) is followed by each fault (4 NACK codes, packets outside the reply set, undecodable bodies inside it, truncated packets followed by end of stream, end of stream) at the acknowledgement position or instead of the next reply: exactly one Err after the Ok items, then None twice without I/O, and no byte written after the faulty bytes were released.",
+         "Trusted: the fault model of Appendix C; malformed bodies are those both the reference decoder and the packet's own decoder reject.", "7/C06"),
  "C13": ("exploration", "proptest-generated canonical values x enumerated edits of the reference encoder's group list (permutations, duplicates, removals, foreign tags) at every nesting level",
          "For every shipped type with tagged fields and generated canonical values, the tagged groups are permuted (all permutations up to 4/6 groups, sampled above), duplicated to every position, mandatory ones removed in every subset, and a tag unknown to the whole packet tree inserted at every gap, at the top level and inside every nested container; the decoder must return the same value, DuplicateTag(t), MissingRequiredTags(all, ascending), or error / exact prefix value + untouched remainder respectively.",
          "Trusted: reference encoder's grouping (tree.rs) and reference decoder for the prefix value. Inside Vec elements the documented 'failure = end of vector' rule weakens the oracle to the prefix predicate. Generated (lab) structs are covered by C12.", "7/C13"),
